@@ -141,7 +141,7 @@ def judge(ys, db, roots):
     return problems
 
 
-def run_walk(level, db, roots, api, bulk=None, policy=None, policy_seed=0):
+def run_walk(level, db, roots, api, bulk=None, policy=None, policy_seed=0, w=None):
     """
     Execute one walk through the public API against a fresh agent.
     Returns (outcome, yielded, world).  outcome: "ok" | "budget" | exception.
@@ -151,9 +151,14 @@ def run_walk(level, db, roots, api, bulk=None, policy=None, policy_seed=0):
     kw = {}
     if policy is not None:
         kw["bulk_policy"] = agent_mod.BulkPolicy(policy, random.Random(policy_seed))
-    w = World(level, db, agent_kwargs=kw)
+    if w is None:
+        w = World(level, db, agent_kwargs=kw)
+    else:
+        # a client that has already walked: nothing may be carried over
+        w.seam.reset()
+        w.agent.requests.clear()
     truth = gen.truth_below(db, roots)
-    w.seam.budget = 4 * (len(truth) + len(roots)) + 8 + 1
+    w.seam.budget = 4 * (len(truth) + len(roots)) + 8 + 1 + 2
     oids = [OID(r) for r in roots]
     strs = [rig.oid_s(r) for r in roots]
     c, p = w.client, w.py
